@@ -111,8 +111,21 @@ type FuncSpec struct {
 	RelInline []string // callees executed inline in relational (two-run) mode
 	Inlines   []string // callees executed inline in this function's proof (their call events stay visible)
 	Implements string
+	Refines   []*Refine // interface method contracts this method is proved to refine
 	GhostSets [][2]string // ghost assignments performed at function exit: target, expression
 	AutoInv   bool        // discipline-only runs: loops without an invariant are cut with `true`
+}
+
+// Refine: `refines[Cxx] core.Strategy.TryAcquire with busy = int(s.inFlight); limit = int(s.limit)`.
+// The concrete method is proved against the interface method's contract with every ghost model
+// field `this.<g>` replaced by the abstraction expression over the concrete state.
+type Refine struct {
+	Props  []string
+	Target string
+	Map    map[string]*SExpr
+	MapTxt map[string]string
+	File   string
+	Line   int
 }
 
 // Lemma: a quantified fact about opaque spec functions, proved once (with the definitions
@@ -372,6 +385,30 @@ func (sp *Specs) parseFile(repo, file string) error {
 			}
 		case "implements":
 			curF.Implements = qualify(pkg, rest)
+		case "refines":
+			if curF == nil {
+				return fmt.Errorf("%s:%d: refines outside func", file, pendingLine)
+			}
+			r := &Refine{Props: props, Map: map[string]*SExpr{}, MapTxt: map[string]string{}, File: file, Line: pendingLine}
+			target := rest
+			if i := strings.Index(rest, " with "); i >= 0 {
+				target = strings.TrimSpace(rest[:i])
+				for _, part := range strings.Split(rest[i+6:], ";") {
+					j := strings.Index(part, "=")
+					if j < 0 {
+						return fmt.Errorf("%s:%d: refines ... with g = expr; ...", file, pendingLine)
+					}
+					g := strings.TrimSpace(part[:j])
+					e, err := parseSpecExpr(strings.TrimSpace(part[j+1:]))
+					if err != nil {
+						return fmt.Errorf("%s:%d: %v", file, pendingLine, err)
+					}
+					r.Map[g] = e
+					r.MapTxt[g] = strings.TrimSpace(part[j+1:])
+				}
+			}
+			r.Target = qualify(pkg, target)
+			curF.Refines = append(curF.Refines, r)
 		case "reveal":
 			if curF == nil {
 				return fmt.Errorf("%s:%d: reveal outside func", file, pendingLine)
